@@ -1,0 +1,198 @@
+//go:build verif
+
+package gmtls
+
+// Access to the unexported decoders of this package for the verification harness
+// (/verif, property C18: decoders of untrusted bytes fail closed).  Nothing here
+// changes behaviour; nothing is compiled without the build tag "verif".
+
+import (
+	"github.com/tjfoc/gmsm/x509"
+)
+
+// VerifDecSessionState is what (*sessionState).unmarshal decoded.
+type VerifDecSessionState struct {
+	Vers, CipherSuite uint16
+	MasterSecret      []byte
+	Certificates      [][]byte
+	UsedOldKey        bool
+}
+
+func verifDecState(s *sessionState) *VerifDecSessionState {
+	if s == nil {
+		return nil
+	}
+	return &VerifDecSessionState{Vers: s.vers, CipherSuite: s.cipherSuite, MasterSecret: s.masterSecret,
+		Certificates: s.certificates, UsedOldKey: s.usedOldKey}
+}
+
+// VerifDecSessionStateUnmarshal calls (*sessionState).unmarshal on a fresh state.
+func VerifDecSessionStateUnmarshal(data []byte) (*VerifDecSessionState, bool) {
+	s := new(sessionState)
+	ok := s.unmarshal(append([]byte{}, data...))
+	return verifDecState(s), ok
+}
+
+// VerifDecSessionStateMarshal calls (*sessionState).marshal.
+func VerifDecSessionStateMarshal(v *VerifDecSessionState) []byte {
+	s := &sessionState{vers: v.Vers, cipherSuite: v.CipherSuite, masterSecret: v.MasterSecret, certificates: v.Certificates}
+	return s.marshal()
+}
+
+// VerifDecEncryptTicket / VerifDecDecryptTicket run encryptTicket / decryptTicket on a
+// connection that only carries cfg (decryptTicket works in place: the argument is copied).
+func VerifDecEncryptTicket(cfg *Config, v *VerifDecSessionState) ([]byte, error) {
+	cfg.serverInitOnce.Do(func() { cfg.serverInit(nil) })
+	c := &Conn{config: cfg}
+	return c.encryptTicket(&sessionState{vers: v.Vers, cipherSuite: v.CipherSuite, masterSecret: v.MasterSecret, certificates: v.Certificates})
+}
+
+func VerifDecDecryptTicket(cfg *Config, encrypted []byte) (*VerifDecSessionState, bool) {
+	cfg.serverInitOnce.Do(func() { cfg.serverInit(nil) })
+	c := &Conn{config: cfg}
+	s, ok := c.decryptTicket(append([]byte{}, encrypted...))
+	return verifDecState(s), ok
+}
+
+// VerifDecMessageKinds lists the message decoders VerifDecUnmarshal knows.
+var VerifDecMessageKinds = []string{
+	"clientHello", "serverHello", "certificate", "certificateRequest", "certificateRequest12",
+	"certificateRequestGM", "certificateStatus", "serverKeyExchange", "serverHelloDone",
+	"clientKeyExchange", "certificateVerify", "certificateVerify12", "nextProto", "finished",
+	"newSessionTicket", "helloRequest",
+}
+
+func verifDecNew(kind string) handshakeMessage {
+	switch kind {
+	case "clientHello":
+		return new(clientHelloMsg)
+	case "serverHello":
+		return new(serverHelloMsg)
+	case "certificate":
+		return new(certificateMsg)
+	case "certificateRequest":
+		return &certificateRequestMsg{}
+	case "certificateRequest12":
+		return &certificateRequestMsg{hasSignatureAndHash: true}
+	case "certificateRequestGM":
+		return &certificateRequestMsgGM{}
+	case "certificateStatus":
+		return new(certificateStatusMsg)
+	case "serverKeyExchange":
+		return new(serverKeyExchangeMsg)
+	case "serverHelloDone":
+		return new(serverHelloDoneMsg)
+	case "clientKeyExchange":
+		return new(clientKeyExchangeMsg)
+	case "certificateVerify":
+		return &certificateVerifyMsg{}
+	case "certificateVerify12":
+		return &certificateVerifyMsg{hasSignatureAndHash: true}
+	case "nextProto":
+		return new(nextProtoMsg)
+	case "finished":
+		return new(finishedMsg)
+	case "newSessionTicket":
+		return new(newSessionTicketMsg)
+	case "helloRequest":
+		return new(helloRequestMsg)
+	}
+	return nil
+}
+
+// VerifDecUnmarshal runs the unmarshal method of the named message type on data
+// (a complete handshake message including its 4-byte header).
+func VerifDecUnmarshal(kind string, data []byte) (known bool, ok bool) {
+	m := verifDecNew(kind)
+	if m == nil {
+		return false, false
+	}
+	return true, m.unmarshal(append([]byte{}, data...))
+}
+
+// VerifDecCertReqGM calls (*certificateRequestMsgGM).unmarshal and returns the fields.
+func VerifDecCertReqGM(data []byte) (ok bool, types []byte, cas [][]byte) {
+	m := &certificateRequestMsgGM{}
+	ok = m.unmarshal(append([]byte{}, data...))
+	return ok, m.certificateTypes, m.certificateAuthorities
+}
+
+// VerifDecSamples returns valid encodings of handshake messages, produced by the
+// marshal methods of the package: kind -> message bytes.
+func VerifDecSamples(random, sessionID, ticket, sig []byte, certs [][]byte) map[string][]byte {
+	out := map[string][]byte{}
+	ch := &clientHelloMsg{vers: VersionTLS12, random: random, sessionId: sessionID,
+		cipherSuites: []uint16{0xe013, 0xc02f, 0x009c, 0x002f}, compressionMethods: []uint8{0},
+		nextProtoNeg: true, serverName: "verif.example.com", ocspStapling: true, scts: true,
+		supportedCurves: []CurveID{CurveP256, X25519}, supportedPoints: []uint8{0},
+		ticketSupported: true, sessionTicket: ticket,
+		supportedSignatureAlgorithms: []SignatureScheme{PKCS1WithSHA256, ECDSAWithP256AndSHA256},
+		secureRenegotiationSupported: true, secureRenegotiation: []byte{1, 2, 3},
+		alpnProtocols: []string{"h2", "http/1.1"}}
+	out["clientHello"] = ch.marshal()
+	sh := &serverHelloMsg{vers: VersionTLS12, random: random, sessionId: sessionID, cipherSuite: 0xc02f,
+		compressionMethod: 0, nextProtoNeg: true, nextProtos: []string{"h2", "spdy/3"}, ocspStapling: true,
+		scts: [][]byte{{1, 2, 3}, {4, 5}}, ticketSupported: true, secureRenegotiationSupported: true,
+		secureRenegotiation: []byte{9, 8, 7, 6}, alpnProtocol: "h2"}
+	out["serverHello"] = sh.marshal()
+	out["certificate"] = (&certificateMsg{certificates: certs}).marshal()
+	cas := [][]byte{{0x30, 0x03, 0x01, 0x02, 0x03}, {0x30, 0x00}}
+	out["certificateRequest"] = (&certificateRequestMsg{certificateTypes: []byte{1, 64}, certificateAuthorities: cas}).marshal()
+	out["certificateRequest12"] = (&certificateRequestMsg{hasSignatureAndHash: true, certificateTypes: []byte{1, 64},
+		supportedSignatureAlgorithms: []SignatureScheme{PKCS1WithSHA256, ECDSAWithP256AndSHA256}, certificateAuthorities: cas}).marshal()
+	out["certificateRequestGM"] = (&certificateRequestMsgGM{certificateTypes: []byte{1, 64}, certificateAuthorities: cas}).marshal()
+	out["certificateStatus"] = (&certificateStatusMsg{statusType: statusTypeOCSP, response: []byte{1, 2, 3, 4, 5}}).marshal()
+	out["serverKeyExchange"] = (&serverKeyExchangeMsg{key: append([]byte{byte(len(sig) >> 8), byte(len(sig))}, sig...)}).marshal()
+	out["serverHelloDone"] = (&serverHelloDoneMsg{}).marshal()
+	out["clientKeyExchange"] = (&clientKeyExchangeMsg{ciphertext: append([]byte{byte(len(sig) >> 8), byte(len(sig))}, sig...)}).marshal()
+	out["certificateVerify"] = (&certificateVerifyMsg{signature: sig}).marshal()
+	out["certificateVerify12"] = (&certificateVerifyMsg{hasSignatureAndHash: true, signatureAlgorithm: ECDSAWithP256AndSHA256, signature: sig}).marshal()
+	out["nextProto"] = (&nextProtoMsg{proto: "http/1.1"}).marshal()
+	out["finished"] = (&finishedMsg{verifyData: random[:12]}).marshal()
+	out["newSessionTicket"] = (&newSessionTicketMsg{ticket: ticket}).marshal()
+	out["helloRequest"] = (&helloRequestMsg{}).marshal()
+	return out
+}
+
+// VerifDecECCGenerateClientKeyExchange: ckx.ciphertext of eccKeyAgreementGM.generateClientKeyExchange.
+func VerifDecECCGenerateClientKeyExchange(encCert *x509.Certificate) ([]byte, error) {
+	ka := &eccKeyAgreementGM{version: VersionGMSSL, encipherCert: encCert}
+	_, ckx, err := ka.generateClientKeyExchange(&Config{}, &clientHelloMsg{vers: VersionGMSSL, random: make([]byte, 32)}, encCert)
+	if err != nil {
+		return nil, err
+	}
+	return ckx.ciphertext, nil
+}
+
+// VerifDecECCProcessClientKeyExchange runs eccKeyAgreementGM.processClientKeyExchange on a body.
+func VerifDecECCProcessClientKeyExchange(enc *Certificate, body []byte) ([]byte, error) {
+	ka := &eccKeyAgreementGM{version: VersionGMSSL}
+	return ka.processClientKeyExchange(&Config{}, enc, &clientKeyExchangeMsg{ciphertext: append([]byte{}, body...)}, VersionGMSSL)
+}
+
+// VerifDecECCGenerateServerKeyExchange: skx.key of eccKeyAgreementGM.generateServerKeyExchange.
+func VerifDecECCGenerateServerKeyExchange(sign, enc *Certificate, clientRandom, serverRandom []byte) ([]byte, error) {
+	ka := &eccKeyAgreementGM{version: VersionGMSSL}
+	skx, err := ka.generateServerKeyExchange(&Config{}, sign, enc,
+		&clientHelloMsg{vers: VersionGMSSL, random: clientRandom}, &serverHelloMsg{vers: VersionGMSSL, random: serverRandom})
+	if err != nil {
+		return nil, err
+	}
+	return skx.key, nil
+}
+
+// VerifDecECCProcessServerKeyExchange runs eccKeyAgreementGM.processServerKeyExchange on skx.key.
+func VerifDecECCProcessServerKeyExchange(signCert, encCert *x509.Certificate, clientRandom, serverRandom, key []byte) error {
+	ka := &eccKeyAgreementGM{version: VersionGMSSL, encipherCert: encCert}
+	return ka.processServerKeyExchange(&Config{},
+		&clientHelloMsg{vers: VersionGMSSL, random: clientRandom}, &serverHelloMsg{vers: VersionGMSSL, random: serverRandom},
+		signCert, &serverKeyExchangeMsg{key: append([]byte{}, key...)})
+}
+
+// VerifDecECDHEProcessServerKeyExchange runs ecdheKeyAgreementGM.processServerKeyExchange on skx.key.
+func VerifDecECDHEProcessServerKeyExchange(signCert *x509.Certificate, clientRandom, serverRandom, key []byte) error {
+	ka := &ecdheKeyAgreementGM{version: VersionGMSSL}
+	return ka.processServerKeyExchange(&Config{},
+		&clientHelloMsg{vers: VersionGMSSL, random: clientRandom}, &serverHelloMsg{vers: VersionGMSSL, random: serverRandom},
+		signCert, &serverKeyExchangeMsg{key: append([]byte{}, key...)})
+}
